@@ -616,4 +616,7 @@ VARIANTS += [
     fire('r10-tree-token-rebuilt-for-model', ['C05'], [(PA, "        if isinstance(node, lark.Token):\n            return self._build_token(node)\n", "        if isinstance(node, lark.Token):\n            self._build_token(node)\n            return models.TOKEN_MODELS[node.type].from_raw_text(node.value)\n")], 'TREE-SEM'),
     silent('r10-twin-tree-loop-restructured', ['C01', 'C05'], [(PA, "            elif is_tree and child.data.endswith('_'):\n                continue\n            else:\n                children.append(self._build_required_node(child))\n", "            elif not (is_tree and child.data.endswith('_')):\n                children.append(self._build_required_node(child))\n")]),
     silent('r10-twin-repeated-loop', ['C01', 'C05'], [(PA, "        items = [\n            self._build_required_node(child) for child in node.children\n            if not (isinstance(child, lark.Tree) and child.data.endswith('_'))\n        ]\n", "        items = []\n        for child in node.children:\n            if isinstance(child, lark.Tree) and child.data.endswith('_'):\n                continue\n            items.append(self._build_required_node(child))\n")]),
+    fire('r10-registry-by-class-name', ['C01'], [('autobean_refactor/models/internal/registry.py', "    TREE_MODELS[cls.RULE] = cls\n", "    TREE_MODELS.setdefault(cls.RULE, cls)\n    TREE_MODELS[cls.__name__.lower()] = cls\n")], 'REG-SEM'),
+    fire('r10-registry-first-wins-token', ['C01'], [('autobean_refactor/models/internal/registry.py', "    TOKEN_MODELS[cls.RULE] = cls\n    return cls", "    TOKEN_MODELS[cls.RULE] = cls\n    return TOKEN_MODELS[cls.RULE.upper()]")], 'REG-SEM'),
+    silent('r10-twin-registry-update', ['C01'], [('autobean_refactor/models/internal/registry.py', "    TREE_MODELS[cls.RULE] = cls\n", "    TREE_MODELS.update({cls.RULE: cls})\n")]),
 ]
